@@ -48,6 +48,7 @@ class Controller:
         self.gate_timeouts = 0
         self.notified = 0            # completions that reached the event loop (call_soon_threadsafe calls)
         self.wait_notify = scn['threads'] > 1
+        self.free_run = False
 
     # called from worker threads (or the main thread when threads == 1)
     def enter(self, x):
@@ -55,6 +56,10 @@ class Controller:
         with self.cv:
             self.calls[x] = self.calls.get(x, 0) + 1
             self.arrivals.append(x)
+            if self.free_run:
+                # the code under test kept deviating from the documented in-flight sets (reported): no more gating
+                self.released.append(x)
+                return
             self.parked[x] = ev
             self.cv.notify_all()
         if not ev.wait(GATE_TIMEOUT):
@@ -97,6 +102,14 @@ class Controller:
                         inflight.append(chunk[nstarted])
                     nstarted += 1
                 expected = list(inflight)
+                if len(self.deviations) > 40:
+                    with self.cv:
+                        self.free_run = True
+                        for e_, ev_ in list(self.parked.items()):
+                            self.released.append(e_)
+                            ev_.set()
+                        self.parked.clear()
+                    return
                 with self.cv:
                     ok = self.cv.wait_for(lambda: self.done or all(e in self.parked for e in expected), timeout=self.stall())
                     if self.done and not self.parked:
@@ -126,7 +139,11 @@ class Controller:
                         # the next release waits until this completion has been handed to the event loop: completion
                         # order as seen by parallel_map == release order, not thread timing
                         target_n = len(self.released)
-                        self.cv.wait_for(lambda: self.notified >= target_n or self.done, timeout=self.stall())
+                        if not self.cv.wait_for(lambda: self.notified >= target_n or self.done, timeout=self.stall()):
+                            # completions do not come through the event loop this call was given (the code under test uses
+                            # another one): the hand-over cannot be observed, stop waiting for it
+                            self.deviations.append({'no_completion_handover': e})
+                            self.wait_notify = False
                 if e in chunk_set and e not in completed:
                     completed.add(e)
                     if e in inflight:
